@@ -591,12 +591,13 @@ type ContractSet struct {
 	Ghosts    []*GhostVar
 	Bounded   []*BoundedCheck
 	Fields    []*FieldDecl
+	Stables   []string // heap keys of package-level variables that are set during start-up only
 	Files     []string
 }
 
 var clauseKeywords = map[string]bool{
 	"func": true, "requires": true, "ensures": true, "preserves": true, "modifies": true, "loop": true,
-	"invariant": true, "iterates": true, "decreases": true, "onrecv": true, "assert": true, "nopanic": true, "safe": true, "pure": true,
+	"stable": true, "invariant": true, "iterates": true, "decreases": true, "onrecv": true, "assert": true, "nopanic": true, "safe": true, "nooverflow": true, "pure": true,
 	"inline": true, "trusted": true, "models": true, "spec": true, "lemma": true, "ghost": true, "external": true,
 	"guarded": true, "atomic": true, "immutable": true, "confined": true, "purefunc": true, "bounded": true,
 }
@@ -931,7 +932,7 @@ func (cs *ContractSet) ParseFile(path, pkgdir string) error {
 				return fmt.Errorf("%s:%d: %v", path, it.line, err)
 			}
 			cur.RecvFacts = append(cur.RecvFacts, &RecvFact{Chan: ch, Var: strings.TrimSpace(rest[i+4 : j]), Expr: ex, Src: rest})
-		case "nopanic", "safe", "pure", "inline", "trusted":
+		case "nopanic", "safe", "pure", "inline", "trusted", "nooverflow":
 			if cur == nil {
 				return fmt.Errorf("%s:%d: flag outside func", path, it.line)
 			}
@@ -1000,6 +1001,13 @@ func (cs *ContractSet) ParseFile(path, pkgdir string) error {
 				bc.Vars = append(bc.Vars, BoundedVar{f[0], f[1], lo, hi})
 			}
 			cs.Bounded = append(cs.Bounded, bc)
+			cur = nil
+		case "stable":
+			// stable glob:main.globals.hub - a package-level variable (or a field of one) assigned only while the
+			// server starts; calls made while serving requests do not change it
+			for _, k := range strings.Fields(rest) {
+				cs.Stables = append(cs.Stables, strings.TrimSuffix(k, ","))
+			}
 			cur = nil
 		case "ghost":
 			f := strings.Fields(rest)
